@@ -485,7 +485,8 @@ pub(crate) fn array_type_spec(p: &mut Parser<'_>, want_array_ref_type: bool) -> 
     } else {
         assert!(p.at(T![array]));
     }
-    p.bump_any();
+    // After `mutable` / `readonly` only `array` may follow; do not swallow anything else.
+    p.expect(T![array]);
     p.expect(T!['[']);
     if !matches!(
         p.current(),
